@@ -21,6 +21,7 @@ META = {
                     "reference gridding by construction (events strictly inside cells and magnitude bins)", "tolerance 1e-9*(1+|x|)"],
     "deciding": ["e2e:N", "e2e:S", "e2e:M", "e2e:PL", "e2e:RM", "e2e:MLL", "post:_compute_likelihood", "post:MLL_score", "ties:twin-catalogs"],
 }
+META["added"] = 'Added: MLL full_calculation, events far above the last magnitude edge, file-streamed forecasts with filters, observations gridding exactly like a synthetic catalog (bit-for-bit ties, monitor ties:twin-catalogs).'
 MANIFEST = {
     "technique": "independent re-implementation of the documented statistics as oracle over the real tests' results; runtime post-conditions on _compute_likelihood / cumulative_square_diff / MLL_score; RNG boundary log (numpy.random.choice) aligning each resampled test-distribution entry with its actual resample; status/None signalling checked on empty and undersampled observations",
     "level_text": "For each generated catalog forecast and observation the six public tests run for real; every test-distribution entry, observed statistic, quantile pair and status is compared with an independent implementation of the documented definition fed by reference gridding, including the explicit signalling of undefined statistics (empty observation -> not-valid / None; empty synthetic catalogs skipped where undefined; events in never-sampled cells excluded and flagged 'undersampled').",
